@@ -610,9 +610,17 @@ def _propagate_constants(modules, ref_names, report) -> set:
 # N4: table-driven code (loops / comprehensions over literal tables, getattr with constant names, **literal dict)
 
 def _literal_items(e):
-    """elements of a literal tuple/list display whose items are literals; None otherwise"""
-    if isinstance(e, (ast.Tuple, ast.List)) and e.elts and len(e.elts) <= 24 and all(_is_literal(x) and not isinstance(x, ast.Call) for x in e.elts):
-        return list(e.elts)
+    """elements of a literal tuple/list display whose items are literals (or all plain name/attribute reads, which are
+    evaluated without effects); `D.items()` of a literal dict display gives its (key, value) pairs; None otherwise"""
+    if isinstance(e, (ast.Tuple, ast.List)) and e.elts and len(e.elts) <= 24:
+        if all(_is_literal(x) and not isinstance(x, ast.Call) for x in e.elts):
+            return list(e.elts)
+        if len(e.elts) <= 8 and all(isinstance(x, ast.Attribute) and _simple_arg(x) for x in e.elts):
+            return list(e.elts)
+    if isinstance(e, ast.Call) and isinstance(e.func, ast.Attribute) and e.func.attr == "items" and not e.args and not e.keywords \
+            and isinstance(e.func.value, ast.Dict) and e.func.value.keys and len(e.func.value.keys) <= 24 \
+            and all(k is not None and _is_literal(k) and _is_literal(v) for k, v in zip(e.func.value.keys, e.func.value.values)):
+        return [ast.Tuple(elts=[k, v], ctx=ast.Load()) for k, v in zip(e.func.value.keys, e.func.value.values)]
     return None
 
 
@@ -719,6 +727,11 @@ def _expand_table_code(fn, allow_unmarked: bool, report) -> int:
                     binds = [_bind_target(st.target, it) for it in items]
                     # the loop variable must not be read after the loop
                     later = any(isinstance(n, ast.Name) and n.id in tnames for s2 in block[i + 1:] for n in ast.walk(s2))
+                    attr_items = [it for it in items if isinstance(it, ast.Attribute)]
+                    if attr_items:
+                        written = {n.attr for b in st.body for n in ast.walk(b) if isinstance(n, ast.Attribute) and isinstance(n.ctx, (ast.Store, ast.Del))}
+                        if written & {it.attr for it in attr_items}:
+                            body = None
                     if body is not None and not (tnames & stores) and all(b is not None for b in binds) and not later:
                         new = []
                         for b in binds:
